@@ -222,6 +222,11 @@ TIES = {
                           "needs": ["lookup_enc", "lookup_dec", "options", "encode", "encode_stmt", "flows", "streams", "decode", "decoder_base", "stmt_layout",
                                     "generic_sink", "generic_serialize", "generic_drivers", "rdflib_serialize", "rdflib_drivers"],
                           "theorems": ["C15_source_serializers_agree_triples", "C15_source_serializers_agree_quads"]},
+    # guess_options of the rdflib integration (a Graph: FLAT_TRIPLES; a Dataset: FLAT_QUADS; RDF-star and generalized statements off)
+    "rdflib_entry": {"sources": ["pyjelly/integrations/rdflib/serialize.py", "pyjelly/serialize/streams.py", "pyjelly/options.py"],
+                     "unit": "rdflib_serialize", "gen": "RdflibSerializeGen", "tie": "RdflibEntryTie",
+                     "needs": ["lookup_enc", "lookup_dec", "options", "encode", "encode_stmt", "flows", "streams", "decode", "decoder_base", "stmt_layout"],
+                     "theorems": ["rdflib_guess_options_is_model", "rdflib_guess_options_ds_is_model"]},
     "generic_sink": {"sources": ["pyjelly/integrations/generic/generic_sink.py"], "gen": "GenericSinkGen", "tie": "GenericTerms", "needs": [],
                      "theorems": ["source_term_eq_is_model"]},
     "generic_parse": {"sources": ["pyjelly/integrations/generic/parse.py", "pyjelly/integrations/generic/generic_sink.py", "pyjelly/parse/decode.py"],
